@@ -129,5 +129,24 @@ pub fn run() {
         }
         println!("TIE pair={k} distinct={} listings={}", seen.len(), seen.join(" | ").replace(' ', "_"));
     }
+    // the same (keyword, regex, location) registered twice (adjacent or not, with and without a Location)
+    let loc = cucumber::step::Location { path: "here.rs", line: 7, column: 3 };
+    for (label, l) in [("no-location", None), ("same-location", Some(loc))] {
+        for adjacent in [true, false] {
+            let re = || regex::Regex::new(r"^foo (\d+)$").unwrap();
+            let other = regex::Regex::new(r"^bar$").unwrap();
+            let c = if adjacent {
+                Collection::<W>::new().given(l, re(), f0).given(l, re(), f2).given(None, other, f1)
+            } else {
+                Collection::<W>::new().given(l, re(), f0).given(None, other, f1).given(l, re(), f2)
+            };
+            let result = match c.find(step) {
+                Ok(None) => "none".to_owned(),
+                Err(e) => format!("ambiguous:{}", e.possible_matches.len()),
+                Ok(Some((_, _, _, ctx))) => format!("one:{}", ctx.matches.len()),
+            };
+            println!("DUPCASE {label}-{} result={result}", if adjacent { "adjacent" } else { "apart" });
+        }
+    }
     println!("RESULT cases={n}");
 }
